@@ -36,6 +36,8 @@ pub struct Run {
     pub hist: Mutex<BTreeMap<String, u64>>,
     pub samples: Mutex<Vec<Value>>,
     pub caps: Mutex<Vec<String>>,
+    /// number of violation reports received (cheap to read from hot loops)
+    pub reports: std::sync::atomic::AtomicU64,
 }
 
 impl Run {
@@ -56,6 +58,7 @@ impl Run {
             hist: Mutex::new(BTreeMap::new()),
             samples: Mutex::new(Vec::new()),
             caps: Mutex::new(Vec::new()),
+            reports: std::sync::atomic::AtomicU64::new(0),
         }
     }
 
@@ -122,7 +125,13 @@ impl Run {
         self.caps.lock().unwrap().push(s.to_string());
     }
 
+    /// Number of violation reports so far (lock-free; for early exits from enumeration loops).
+    pub fn reports(&self) -> u64 {
+        self.reports.load(std::sync::atomic::Ordering::Relaxed)
+    }
+
     pub fn violation(&self, signature: &str, detail: &str, replay: Value) {
+        self.reports.fetch_add(1, std::sync::atomic::Ordering::Relaxed);
         let mut v = self.violations.lock().unwrap();
         // keep one representative per signature (the first = smallest, enumeration is simplest-first)
         if v.iter().any(|x| x.signature == signature) {
